@@ -305,21 +305,30 @@ def _infer_hint_mapping_items(
     if hints_key is object and hints_value is object:
         hint = hint_factory
     # Else, at least one of these child key or value hints is no longer the
-    # ignorable "object" superclass. In this case...
-    else:
-        # Type hint recursively validating this mapping, defined as either...
+    # ignorable "object" superclass.
+    #
+    # If this mapping is a counter (i.e., instance of the standard
+    # "collections.Counter" class)...
+    elif hint_factory is Counter:
+        # Type hint recursively validating this counter, defined as either...
         hint = (
-            # If this mapping is a counter (i.e., instance of the standard
-            # "collections.Counter" class), subscripting this factory by only
-            # this key union. By definition, *ALL* values of *ALL* counters are
-            # unconditionally constrained to be integers and thus need *NOT*
-            # (and indeed *CANNOT*) be explicitly specified;
+            # If *ALL* values of this counter are integers, subscripting this
+            # factory by only this key union. By definition, "Counter[...]"
+            # hints unconditionally constrain *ALL* values to be integers, which
+            # thus need *NOT* (and indeed *CANNOT*) be explicitly specified;
             hint_factory[hints_key]  # type: ignore[index]
-            if hint_factory is Counter else
-            # Else, this mapping is *NOT* a counter. In this case, sequentially
-            # subscripting this factory by both this key and value union.
-            hint_factory[hints_key, hints_value]  # type: ignore[index]
+            if hints_value is int else
+            # Else, one or more values of this counter are *NOT* integers
+            # (e.g., "Counter({'a': 1.5})"). Although counts are typically
+            # integers, counters permit arbitrary values. Since the hint inferred
+            # for an object *MUST* be satisfied by that object, fallback to this
+            # unsubscripted factory.
+            hint_factory
         )
+    # Else, this mapping is *NOT* a counter. In this case, sequentially
+    # subscript this factory by both this key and value union.
+    else:
+        hint = hint_factory[hints_key, hints_value]  # type: ignore[index]
     # print(f'Inferred {repr(obj)} hint as {repr(hint)}...')
 
     # Return this hint.
